@@ -71,7 +71,9 @@ JudgeQueries(T, D, set, r, P, e, ref) ==
         creds == TLCEval([i \in 1..Len(T) |-> CredFrac(D[T[i]], d)])
         nums == TLCEval([i \in 1..Len(T) |-> CredNum(D[T[i]], d, M)])
         best == {i \in 1..Len(T) : \A i2 \in 1..Len(T) : nums[i] >= nums[i2]}
-    IN Work("consensus_tree", c) \o Work("calculate_log_product_of_split_supports", sc)
+        full == BagOfSeq(T) = BagOfSeq([i \in 1..Len(D) |-> i])
+        lo == e.conslow
+    IN Work("consensus_tree", c) \o Work("consensus_tree(min_freq=0.25)", lo) \o Work("calculate_log_product_of_split_supports", sc)
        \o Work("maximum_product_of_split_support_tree", m) \o Work("split_bitmask_set_frequencies", e.topo)
        \o (IF c.raised # "" THEN None
            ELSE (IF WFClause(c.g) # "ok" THEN V("C06.SameConsensus", "ill-formed:" \o WFClause(c.g))
@@ -79,11 +81,20 @@ JudgeQueries(T, D, set, r, P, e, ref) ==
                             \/ TreeTx(c.g) # UNION {D[T[i]].leafset : i \in 1..Len(T)}
                          THEN V("C06.SameConsensus", "splits-are-not-the-majority-splits-of-the-bag") ELSE None)
                    \* the whole sample in this array: same consensus as the reference array filled one tree at a time
-                   \o (IF BagOfSeq(T) = BagOfSeq([i \in 1..Len(D) |-> i]) /\ ref.raised = "" /\ SplitSet(c.g) # SplitSet(ref.g)
+                   \o (IF full /\ ref.raised = "" /\ SplitSet(c.g) # SplitSet(ref.g)
                          THEN V("C06.SameConsensus", "differs-from-the-array-filled-one-tree-at-a-time") ELSE None)
                    \o (IF c.g.rooted # (IF r = 1 THEN 1 ELSE 0) THEN V("C06.SameConsensus", "rooting-of-consensus") ELSE None)
                    \o (IF \E x \in Nodes(c.g) : ~RatOk(c.sup[x]) \/ c.sup[x][1] * d.sumW # CountOf(d, SplitOf(c.g, x)) * c.sup[x][2]
                          THEN V("C06.SameSupports", "support-on-consensus") ELSE None)))
+       \* threshold 1/4: every majority split, nothing below a quarter; which of the incompatible candidates are kept
+       \* (ties!) must not depend on the route: same as the reference array when the whole sample is here
+       \o (IF lo.raised # "" THEN None
+           ELSE IF WFClause(lo.g) # "ok" THEN V("C06.SameConsensus", "min_freq=0.25:ill-formed:" \o WFClause(lo.g))
+           ELSE (IF ~(MajoritySplits(d) \ {{}, TreeTx(lo.g)} \subseteq SplitSet(lo.g))
+                     \/ \E s \in SplitSet(lo.g) \ {{}, TreeTx(lo.g)} : 4 * CountOf(d, s) < d.sumW
+                   THEN V("C06.SameConsensus", "min_freq=0.25:splits-outside-the-frequency-bounds") ELSE None)
+             \o (IF full /\ ref.lowraised = "" /\ SplitSet(lo.g) # SplitSet(ref.lowg)
+                   THEN V("C06.SameConsensus", "min_freq=0.25:differs-from-the-array-filled-one-tree-at-a-time") ELSE None))
        \o (IF sc.raised # "" \/ ~defined THEN None
            ELSE IF Len(sc.vals) # Len(T) THEN V("C06.SameCredibility", "number-of-scores")
            ELSE (IF \E i \in 1..Len(T) : ~RatOk(sc.vals[i]) \/ <<sc.vals[i][1], sc.vals[i][2]>> # creds[i]
